@@ -28,7 +28,8 @@ VARIABLES gi, inp, pc, fi, remC, remF, curF, ti, remR, types, raw, ext, conds, e
 vars == <<gi, inp, pc, fi, remC, remF, curF, ti, remR, types, raw, ext, conds, errs>>
 
 Range(s) == { s[i] : i \in 1..Len(s) }
-NameSeq == <<"a", "b", "c", "d", "e", "r", "s", "t", "tx", "u", "v", "w", "x", "y", "z">>
+\* the names of the universes in the order Go's sort puts them (byte order: upper case before lower case)
+NameSeq == <<"C", "R", "S", "a", "b", "c", "d", "e", "r", "s", "t", "tx", "u", "v", "w", "x", "y", "z">>
 Rank(n) == CHOOSE i \in 1..Len(NameSeq) : NameSeq[i] = n
 MinByRank(S) == CHOOSE x \in S : \A y \in S : Rank(x) <= Rank(y)
 
